@@ -478,6 +478,8 @@ type LoopSpec struct {
 }
 
 type SplitSpec struct {
+	Only    []string // if set: applies only to the postconditions with these labels
+	Bounded bool // `bound`: no residual instance - the obligations are only claimed inside lo..hi (labelled bounded)
 	Expr   *Node
 	Lo, Hi int
 	// thorough range (optional): Hi2 >= Hi
@@ -504,6 +506,7 @@ type Contract struct {
 	Asserts  []Clause
 	Assumes  []Clause // stated mathematical facts, assumed when verifying the body; listed in the evidence
 	AtCalls  []AtCall // ghost assertions checked in the state just before a call to a named callee
+	Strings  bool     // use the SMT string theory for Go strings in this function's conditions
 	Opaque   []string // spec functions treated as uninterpreted in this function's conditions
 	Footprint []*Node // objects whose fields (of the maps in Modifies) may change; all others keep theirs
 	Abstract []*Node // nonlinear terms replaced by fresh constants in a first proof attempt
@@ -879,6 +882,11 @@ func (cs *ContractSet) LoadContractFile(path, pkgPath string) error {
 				return fail(err)
 			}
 			cur.AtCalls = append(cur.AtCalls, AtCall{Callee: strings.TrimSpace(rest[:k]), Clause: cl})
+		case "strings":
+			if cur == nil {
+				return fail(fmt.Errorf("strings outside func"))
+			}
+			cur.Strings = true
 		case "opaque-default":
 			// applies to every function contract that follows in this file
 			fileOpaque = append(fileOpaque, strings.Fields(strings.ReplaceAll(rest, ",", " "))...)
@@ -921,11 +929,20 @@ func (cs *ContractSet) LoadContractFile(path, pkgPath string) error {
 				cur.NoVerify = true
 				cur.Trusted = rest
 			}
-		case "split":
+		case "split", "bound":
 			if cur == nil {
 				return fail(fmt.Errorf("split outside func"))
 			}
-			// split <expr> in lo..hi [thorough hi2]
+			// split <expr> in lo..hi [thorough hi2] [for label1, label2]
+			var onlyLabels []string
+			if f := strings.LastIndex(rest, " for "); f >= 0 {
+				for _, lb := range strings.Split(rest[f+5:], ",") {
+					if lb = strings.TrimSpace(lb); lb != "" {
+						onlyLabels = append(onlyLabels, lb)
+					}
+				}
+				rest = strings.TrimSpace(rest[:f])
+			}
 			k := strings.LastIndex(rest, " in ")
 			if k < 0 {
 				return fail(fmt.Errorf("split needs 'in lo..hi'"))
@@ -943,7 +960,7 @@ func (cs *ContractSet) LoadContractFile(path, pkgPath string) error {
 			if n < 3 {
 				hi2 = hi
 			}
-			cur.Splits = append(cur.Splits, SplitSpec{Expr: e, Lo: lo, Hi: hi, Hi2: hi2})
+			cur.Splits = append(cur.Splits, SplitSpec{Expr: e, Lo: lo, Hi: hi, Hi2: hi2, Bounded: kw == "bound", Only: onlyLabels})
 		case "loop":
 			if cur == nil {
 				return fail(fmt.Errorf("loop outside func"))
